@@ -160,6 +160,8 @@ func verifErr(err error) string {
 		return "ok"
 	case errors.Is(err, sql.ErrNoRows):
 		return "nf"
+	case errors.Is(err, context.Canceled):
+		return "ctx"
 	case strings.Contains(err.Error(), verifFaultMsg):
 		return "cerr"
 	case strings.Contains(err.Error(), "verif exec failure"):
@@ -211,10 +213,17 @@ func verifRunCase(c verifCase) (any, bool) {
 		timex.VerifAdvance(11 * time.Second) // empties the Redis breaker's window
 		src.vals, src.i = op.U, 0
 		o := map[string]any{}
+		rctx := ctx
+		if op.Op == "qrowc" || op.Op == "qidxc" {
+			// the read is issued with a context that is already cancelled
+			cctx, cancel := context.WithCancel(ctx)
+			cancel()
+			rctx = cctx
+		}
 		switch op.Op {
-		case "qrow":
+		case "qrow", "qrowc":
 			var row verifRow
-			err := cc.QueryRowCtx(ctx, &row, keyName([]any{"pk", float64(op.ID)}), func(ctx context.Context, conn sqlx.Conn, v any) error {
+			err := cc.QueryRowCtx(rctx, &row, keyName([]any{"pk", float64(op.ID)}), func(ctx context.Context, conn sqlx.Conn, v any) error {
 				dbq++
 				got, ok := db[op.ID]
 				if !ok {
@@ -228,9 +237,9 @@ func verifRunCase(c verifCase) (any, bool) {
 				o["r"] = "row"
 				o["row"] = []int{row.ID, row.Ix, row.Val}
 			}
-		case "qidx":
+		case "qidx", "qidxc":
 			var row verifRow
-			err := cc.QueryRowIndexCtx(ctx, &row, keyName([]any{"ix", float64(op.Ix)}), keyer,
+			err := cc.QueryRowIndexCtx(rctx, &row, keyName([]any{"ix", float64(op.Ix)}), keyer,
 				func(ctx context.Context, conn sqlx.Conn, v any) (any, error) {
 					dbq++
 					for id := 0; id < 64; id++ { // smallest id first
